@@ -120,7 +120,7 @@ theorem valuemap_roundtrip (m m' : VMap) (h : normalise m = .ok m') :
 
 /-- a negative key or a relabelled key 0 is rejected -/
 theorem valuemap_reject (m : VMap) (kv : Int × String) (hkv : kv ∈ m)
-    (hbad : kv.1 < 0 ∨ (kv.1 = 0 ∧ kv.2 ≠ "Unknown")) : ∃ e, normalise m = .error e := by
+    (hbad : (kv.1 < 0 ∨ 4294967295 < kv.1) ∨ (kv.1 = 0 ∧ kv.2 ≠ "Unknown")) : ∃ e, normalise m = .error e := by
   cases hn : normalise m with
   | error e => exact ⟨e, rfl⟩
   | ok m' =>
@@ -128,8 +128,26 @@ theorem valuemap_reject (m : VMap) (kv : Int × String) (hkv : kv ∈ m)
     unfold validKV at this
     rcases hbad with h | h
     · simp [h] at this
-    · have h1 : ¬ kv.1 < 0 := by omega
+    · have h1 : ¬ (kv.1 < 0 ∨ 4294967295 < kv.1) := by omega
       simp [h1, h] at this
+
+/-- the stored form of a key: an unsigned 32-bit integer (`astype("<u4")` wraps) -/
+def wrapU32 (k : Int) : Int := k % 4294967296
+
+/-- **Accepted keys are stored as themselves**: every key of an accepted map fits the unsigned 32-bit integer it is
+    stored in, so the cast in `write_value_map` never alters one (as found, keys from 2^32 on were accepted and wrapped:
+    `valuemap_wraps_counterexample`). -/
+theorem valuemap_keys_fit (m m' : VMap) (h : normalise m = .ok m') : ∀ kv ∈ m, wrapU32 kv.1 = kv.1 := by
+  intro kv hkv
+  have := normalise_valid m m' h kv hkv
+  unfold validKV at this
+  split at this
+  · cases this
+  · rename_i hk
+    unfold wrapU32
+    omega
+
+theorem valuemap_wraps_counterexample : wrapU32 4294967296 = 0 ∧ wrapU32 4294967301 = 5 := by decide
 
 /-! ### text: UTF-8 -/
 
